@@ -14,7 +14,9 @@ import (
 var fsPaths = []string{"metadata/labels", "metadata/annotations", "spec/template/metadata/labels", "spec/template/spec/containers/image",
 	"spec/template/spec/containers[]/image", "metadata/name", "spec/replicas", "spec/template/spec/containers/env/value",
 	"spec/template/spec/nodeSelector", "spec/template/spec/volumes/configMap/name", "spec/selector/matchLabels", "/metadata/name",
-	"spec/paused", "metadata/labels/app", "spec/new/deep/field", "spec/template/spec/containers/args", "spec//x", "spec/template[]/spec", "metadata/a\\/b"}
+	"spec/paused", "metadata/labels/app", "spec/new/deep/field", "spec/template/spec/containers/args", "spec//x", "spec/template[]/spec", "metadata/a\\/b",
+	// keys that contain the delimiter several times: every escaped delimiter belongs to the element
+	"metadata/annotations/a\\/b\\/c", "metadata/labels/app\\/kubernetes\\/io\\/name", "spec/x\\/y\\/z/w"}
 
 func init() {
 	components["fieldspec.apply"] = func(r *rand.Rand, tier string) (map[string]interface{}, func() (interface{}, string)) {
